@@ -260,6 +260,25 @@ Proof.
       unfold rp_rollback. cbn [rp_v_rbflag rp_fixed]. rewrite Hrb. cbn. exact HR.
   - (* rejected before any recipient context is touched *)
     split; [reflexivity | exact HR].
+  - (* stopped between the replay check and decryption *)
+    destruct (rp_a_armed a) eqn:Ha; cbn [negb] in Hi; rewrite Hi.
+    + pose proof (rp_validate_armed W s a (rp_m_seq m) HR Ha) as HV.
+      destruct (rp_validate rp_fixed W s (rp_m_seq m)) as [ok s1].
+      destruct HV as (Hok & Hu1 & Hi1 & Hno & Hyes).
+      rewrite <- Hok.
+      destruct ok; cbn [negb].
+      * destruct (Hyes eq_refl) as (HR1 & Hrl & Hrw).
+        cbn [rp_v_nooverwrite rp_v_abort_rb rp_fixed negb andb].
+        split; [reflexivity|].
+        destruct Hrest as (Hl & Hb0 & Hbits & Hle).
+        pose proof (rp_rollback_restores s1 _ _ Hrl Hrw (rp_win_nonzero _ Hb0)) as (R1 & R2 & R3 & R4).
+        unfold rp_R. rewrite Ha, R1, R2, R3, R4, Hu1, Hi1. cbn [negb].
+        repeat split; auto.
+      * destruct (Hno eq_refl) as (Hl1 & Hw1). split; [reflexivity|].
+        unfold rp_R in *. rewrite Ha in *. rewrite Hl1, Hw1, Hu1, Hi1. cbn [negb].
+        destruct Hrest as (Hl & Hb0 & Hbits & Hle). repeat split; auto.
+    + cbn [negb andb rp_v_nooverwrite rp_v_abort_rb rp_fixed rp_v_arm].
+      split; [reflexivity | exact HR].
 Qed.
 
 (* one response with its own Partial IV *)
@@ -272,8 +291,8 @@ Proof.
   intros W s a m HR.
   pose proof HR as (Hu & Hi & Hrest).
   unfold rp_recv_resp, rp_abs_recv_resp.
-  cbn [rp_v_resp_nowrite rp_v_resp_rb rp_fixed].
-  destruct (rp_m_auth m) eqn:Em; [| |split; [reflexivity | exact HR]].
+  cbn [rp_v_resp_nowrite rp_v_resp_rb rp_v_abort_rb rp_fixed].
+  destruct (rp_m_auth m) eqn:Em; [| |split; [reflexivity | exact HR]|].
   - (* genuine *)
     destruct (rp_a_armed a) eqn:Ha; cbn [negb] in Hi; rewrite Hi.
     + pose proof (rp_validate_armed W s a (rp_m_seq m) HR Ha) as HV.
@@ -295,6 +314,30 @@ Proof.
       * assert (rp_m_seq m <? rp_seq_max = true) as -> by lia. cbn [negb].
         rewrite Hi. split; [reflexivity | exact HR].
   - (* forged *)
+    destruct (rp_a_armed a) eqn:Ha; cbn [negb] in Hi; rewrite Hi.
+    + pose proof (rp_validate_armed W s a (rp_m_seq m) HR Ha) as HV.
+      destruct (rp_validate rp_fixed W s (rp_m_seq m)) as [ok s1].
+      destruct HV as (Hok & Hu1 & Hi1 & Hno & Hyes).
+      rewrite <- Hok.
+      destruct ok; cbn [negb andb].
+      * destruct (Hyes eq_refl) as (HR1 & Hrl & Hrw).
+        assert (rp_m_seq m >=? rp_seq_max = false) as ->.
+        { symmetry in Hok. unfold rp_abs_fresh in Hok. apply andb_prop in Hok. lia. }
+        split; [reflexivity|].
+        destruct Hrest as (Hl & Hb0 & Hbits & Hle).
+        pose proof (rp_rollback_restores s1 _ _ Hrl Hrw (rp_win_nonzero _ Hb0)) as (R1 & R2 & R3 & R4).
+        unfold rp_R. rewrite Ha, R1, R2, R3, R4, Hu1, Hi1. cbn [negb].
+        repeat split; auto.
+      * destruct (Hno eq_refl) as (Hl1 & Hw1). split; [reflexivity|].
+        unfold rp_R in *. rewrite Ha in *. rewrite Hl1, Hw1, Hu1, Hi1. cbn [negb].
+        destruct Hrest as (Hl & Hb0 & Hbits & Hle). repeat split; auto.
+    + cbn [negb andb]. unfold rp_abs_fresh. rewrite Ha. rewrite andb_true_r.
+      destruct (rp_m_seq m >=? rp_seq_max) eqn:E.
+      * assert (rp_m_seq m <? rp_seq_max = false) as -> by lia. cbn [negb].
+        split; [reflexivity | exact HR].
+      * assert (rp_m_seq m <? rp_seq_max = true) as -> by lia. cbn [negb].
+        split; [reflexivity | exact HR].
+  - (* stopped between the replay check and decryption *)
     destruct (rp_a_armed a) eqn:Ha; cbn [negb] in Hi; rewrite Hi.
     + pose proof (rp_validate_armed W s a (rp_m_seq m) HR Ha) as HV.
       destruct (rp_validate rp_fixed W s (rp_m_seq m)) as [ok s1].
@@ -401,7 +444,8 @@ Proof.
            [|right; split; [discriminate | reflexivity]].
          destruct (rp_a_armed a); [left; auto | right; split; [discriminate | reflexivity]].
        - destruct (negb _); right; split; try discriminate; reflexivity.
-       - right; split; [discriminate | reflexivity]. }
+       - right; split; [discriminate | reflexivity].
+       - destruct (negb _); right; split; try discriminate; reflexivity. }
   destruct (rp_m_auth m) eqn:Em.
   - destruct (rp_a_armed a).
     + destruct (rp_abs_fresh W a (rp_m_seq m)) eqn:Ef; cbn [negb];
@@ -412,6 +456,7 @@ Proof.
       * destruct b12; [destruct (rp_m_echo m)|]; right; split; try discriminate; reflexivity.
   - destruct (rp_a_armed a); [destruct (negb _)|]; right; split; try discriminate; reflexivity.
   - right; split; [discriminate | reflexivity].
+  - destruct (rp_a_armed a); [destruct (negb _)|]; right; split; try discriminate; reflexivity.
 Qed.
 
 Lemma rp_abs_run_seen : forall W b12 h a,
@@ -452,9 +497,11 @@ Lemma rp_abs_recv_forged : forall W b12 a m,
 Proof.
   intros W b12 a m Hf. unfold rp_abs_recv, rp_abs_recv_req, rp_abs_recv_resp.
   destruct (rp_m_kind m).
-  - destruct (rp_m_auth m); [congruence| |];
-      [destruct (rp_a_armed a); [destruct (negb _)|] |]; cbn; split; auto; discriminate.
-  - destruct (rp_m_auth m); [congruence| |]; [destruct (negb _)|]; cbn; split; auto; discriminate.
+  - destruct (rp_m_auth m); [congruence| | |];
+      [destruct (rp_a_armed a); [destruct (negb _)|] | |
+       destruct (rp_a_armed a); [destruct (negb _)|]]; cbn; split; auto; discriminate.
+  - destruct (rp_m_auth m); [congruence| | |]; [destruct (negb _)| |destruct (negb _)];
+      cbn; split; auto; discriminate.
 Qed.
 
 Lemma rp_abs_filter_genuine : forall W b12 h a,
@@ -552,14 +599,57 @@ Proof.
       destruct (rp_m_seq m >=? rp_seq_max); cbn [fst snd]; split; reflexivity.
 Qed.
 
-(* every message that is not genuine: fails authentication, or is turned away even earlier *)
+Lemma rp_abort_obs : forall W b12 s a m,
+  rp_R s a -> rp_m_auth m = RpAbort ->
+  rp_obs (snd (rp_recv rp_fixed W b12 s m)) = rp_obs s /\
+  rp_delivered (fst (rp_recv rp_fixed W b12 s m)) = false.
+Proof.
+  intros W b12 s a m HR Hf.
+  pose proof HR as (Hu & Hi & Hrest).
+  unfold rp_recv, rp_recv_req, rp_recv_resp. rewrite Hf.
+  cbn [rp_v_resp_nowrite rp_v_resp_rb rp_v_nooverwrite rp_v_abort_rb rp_fixed].
+  destruct (rp_m_kind m).
+  - (* request *)
+    destruct (rp_a_armed a) eqn:Ha; cbn [negb] in Hi; rewrite Hi.
+    + pose proof (rp_validate_armed W s a (rp_m_seq m) HR Ha) as HV.
+      destruct (rp_validate rp_fixed W s (rp_m_seq m)) as [ok s1].
+      destruct HV as (Hok & Hu1 & Hi1 & Hno & Hyes).
+      destruct ok; cbn [negb andb fst snd].
+      * destruct (Hyes eq_refl) as (HR1 & Hrl & Hrw).
+        destruct Hrest as (Hl & Hb0 & Hbits & Hle).
+        pose proof (rp_rollback_restores s1 _ _ Hrl Hrw (rp_win_nonzero _ Hb0)) as (R1 & R2 & R3 & R4).
+        unfold rp_obs. rewrite R1, R2, R3, Hi1, Hi. split; reflexivity.
+      * destruct (Hno eq_refl) as (Hl1 & Hw1). unfold rp_obs. rewrite Hl1, Hw1, Hi1, Hi.
+        split; reflexivity.
+    + cbn [negb andb fst snd]. split; reflexivity.
+  - (* response *)
+    destruct (rp_a_armed a) eqn:Ha; cbn [negb] in Hi; rewrite Hi.
+    + pose proof (rp_validate_armed W s a (rp_m_seq m) HR Ha) as HV.
+      destruct (rp_validate rp_fixed W s (rp_m_seq m)) as [ok s1].
+      destruct HV as (Hok & Hu1 & Hi1 & Hno & Hyes).
+      destruct ok; cbn [negb andb fst snd].
+      * destruct (Hyes eq_refl) as (HR1 & Hrl & Hrw).
+        destruct Hrest as (Hl & Hb0 & Hbits & Hle).
+        pose proof (rp_rollback_restores s1 _ _ Hrl Hrw (rp_win_nonzero _ Hb0)) as (R1 & R2 & R3 & R4).
+        assert (rp_m_seq m >=? rp_seq_max = false) as ->.
+        { symmetry in Hok. unfold rp_abs_fresh in Hok. apply andb_prop in Hok. lia. }
+        cbn [fst snd]. unfold rp_obs. rewrite R1, R2, R3, Hi1, Hi. split; reflexivity.
+      * destruct (Hno eq_refl) as (Hl1 & Hw1). unfold rp_obs. rewrite Hl1, Hw1, Hi1, Hi.
+        split; reflexivity.
+    + cbn [negb andb fst snd].
+      destruct (rp_m_seq m >=? rp_seq_max); cbn [fst snd]; split; reflexivity.
+Qed.
+
+(* every message that is not genuine: fails authentication, is turned away even earlier, or its
+   processing stops between the replay check and the decryption verdict *)
 Theorem rp_forgery_no_trace : forall W b12 s m,
   rp_reachable W b12 s -> rp_m_auth m <> RpGenuine ->
   rp_obs (snd (rp_recv rp_fixed W b12 s m)) = rp_obs s /\
   rp_delivered (fst (rp_recv rp_fixed W b12 s m)) = false.
 Proof.
   intros W b12 s m Hr Hf. destruct (rp_reachable_R W b12 s Hr) as [a [HR _]].
-  destruct (rp_m_auth m) eqn:Em; [congruence | eapply rp_forged_obs; eauto |].
+  destruct (rp_m_auth m) eqn:Em;
+    [congruence | eapply rp_forged_obs; eauto | | eapply rp_abort_obs; eauto].
   unfold rp_recv, rp_recv_req, rp_recv_resp. rewrite Em.
   destruct (rp_m_kind m); cbn [fst snd]; split; reflexivity.
 Qed.
@@ -715,7 +805,7 @@ Proof.
   assert (H1 : rp_in_range (snd (if rp_initial s then (true, s)
                                   else rp_validate v W s (rp_m_seq m)))).
   { destruct (rp_initial s); [exact Hr | apply rp_validate_range; [lia | exact Hr]]. }
-  destruct (rp_m_auth m) eqn:Em; [| |exact Hr];
+  destruct (rp_m_auth m) eqn:Em; [| |exact Hr|];
     destruct (if rp_initial s then (true, s) else rp_validate v W s (rp_m_seq m)) as [ok s1];
     cbn [snd] in H1;
     (destruct ok; cbn [negb]; [|exact H1]);
@@ -728,6 +818,7 @@ Proof.
     + destruct (rp_m_echo m); [exact H2 | apply rp_arm_range; [lia | exact H2] | exact H2].
     + destruct (rp_v_arm v); [apply rp_arm_range; [lia | exact H2] | exact H2].
   - apply rp_rollback_range. exact H2.
+  - cbn [snd]. destruct (rp_v_abort_rb v && negb (rp_initial s)); [apply rp_rollback_range|]; exact H2.
 Qed.
 
 Lemma rp_recv_resp_range : forall v W s m,
@@ -737,7 +828,7 @@ Proof.
   assert (H1 : rp_in_range (snd (if rp_initial s then (true, s)
                                   else rp_validate v W s (rp_m_seq m)))).
   { destruct (rp_initial s); [exact Hr | apply rp_validate_range; [lia | exact Hr]]. }
-  destruct (rp_m_auth m) eqn:Em; [| |exact Hr];
+  destruct (rp_m_auth m) eqn:Em; [| |exact Hr|];
     destruct (if rp_initial s then (true, s) else rp_validate v W s (rp_m_seq m)) as [ok s1];
     cbn [snd] in H1;
     (destruct ok; cbn [negb]; [|exact H1]);
@@ -750,6 +841,7 @@ Proof.
     cbn [snd] in H2; (destruct toobig; [exact H1|]); cbn [snd].
   - destruct (rp_initial s2); exact H2.
   - destruct (rp_v_resp_rb v && negb (rp_initial s)); [apply rp_rollback_range|]; exact H2.
+  - destruct (rp_v_abort_rb v && negb (rp_initial s)); [apply rp_rollback_range|]; exact H2.
 Qed.
 
 Lemma rp_recv_range : forall v W b12 s m,
